@@ -426,3 +426,77 @@ package tsm1
 //@   at after WAL.Open#1: ghost positioned = true
 //@   at after Engine.reloadCache#1: ghost shrunk_after_positioning = positioned
 //@   ensures append_position_at_end_of_log: result == nil ==> !shrunk_after_positioning
+
+// ---- C01: the cache snapshot and its WAL segments are dropped only after the new TSM files are installed ----
+// FileStore.Replace returning nil means the snapshot's files were renamed into place and are part of the store.
+// Only then may the in-memory snapshot be cleared and the WAL segments it covers be removed; on every error
+// path the snapshot is kept for a retry (ClearSnapshot(false)) and no segment is removed.
+//@ func (*Engine).writeSnapshotAndCommit
+//@   props C01
+//@   nosafety
+//@   ghost installed bool = false
+//@   ghost cleared bool = false
+//@   ghost retained bool = false
+//@   ghost wal_removed bool = false
+//@   at after FileStore.Replace#1: ghost installed = callresult0 == nil
+//@   at after Cache.ClearSnapshot#1: ghost cleared = true
+//@   at after WAL.Remove#1: ghost wal_removed = true
+//@   at after Cache.ClearSnapshot#1 in writeSnapshotAndCommit$1: ghost retained = true
+//@   call Cache.ClearSnapshot#1 requires snapshot_cleared_only_after_install: installed
+//@   call WAL.Remove#1 requires wal_removed_only_after_install: installed && cleared
+//@   ensures failure_keeps_everything: err != nil ==> retained && !cleared && !wal_removed
+//@   ensures success_means_installed: err == nil ==> installed && cleared
+
+// ---- C01: a WAL write is acknowledged only after its entry was written and its fsync result received ----
+// the locked section: success means the entry was handed to the segment writer and a sync waiter was queued
+//@ func (*WAL).writeToLog$1
+//@   props C01
+//@   nosafety
+//@   ghost written bool = false
+//@   ghost enqueued bool = false
+//@   at after WALSegmentWriter.Write#1: ghost written = callresult0 == nil
+//@   at after select#2: ghost enqueued = selectidx == 0
+//@   ensures success_means_written_and_sync_requested: result1 == nil ==> written && enqueued
+
+//@ func (*WAL).writeToLog
+//@   props C01
+//@   nosafety
+//@   ghost section_ok bool = false
+//@   ghost waited bool = false
+//@   at after writeToLog$1#1: ghost section_ok = callresult1 == nil
+//@   at after recv#1: ghost waited = true
+//@   ensures acknowledged_only_after_sync: result1 == nil ==> section_ok && waited
+
+// ---- C01: replace = rename the new files in, then unlink the old ones, then fsync the directory ----
+// A crash must never find the old files gone while the new ones still carry their .tmp name (they would be
+// deleted by cleanup at the next open). Ghost `new_files_live`: the rename loop over newFiles has completed.
+//@ func (*FileStore).replace
+//@   props C01 C09
+//@   nosafety
+//@   dynamic_calls_modify_nothing
+//@   ghost new_files_live bool = false
+//@   ghost dir_synced bool = false
+//@   at before RWMutex.Lock#1: ghost new_files_live = true
+//@   at after file.SyncDir#1: ghost dir_synced = callresult0 == nil
+//@   call Remove#1 requires old_file_removed_only_after_new_files_are_live: new_files_live
+//@   call Rename#1 requires old_file_moved_aside_only_after_new_files_are_live: new_files_live
+//@   call os.Remove#1 requires tombstone_removed_only_after_new_files_are_live: new_files_live
+//@   ensures directory_synced_on_success: result == nil && (len(oldFiles) != 0 || len(newFiles) != 0) ==> dir_synced
+
+// ---- C01: the WAL reader counts only entries that decoded completely ----
+// CacheLoader.Load truncates a corrupt segment at r.Count() == r.n: it must be the end of the last entry that
+// was read AND decoded without error - never inside or behind an entry that failed.
+//@ func getBuf
+//@   assumed
+//@   modifies nothing
+//@   ensures buffer: result != nil && len(*result) == size
+
+//@ func putBuf
+//@   assumed
+//@   modifies nothing
+
+//@ func (*WALSegmentReader).Next
+//@   props C01 C13
+//@   requires r.r != nil && r.n >= 0 && r.n <= 1000000000000
+//@   ensures failed_entry_not_counted: r.err != nil || !result ==> r.n == old(r.n)
+//@   ensures good_entry_counted_whole: result && r.err == nil ==> r.n >= old(r.n) + 5
